@@ -31,6 +31,12 @@ structure Sphere (α : Type) where
   radius : α
 deriving Repr, Inhabited
 
+/-- the half space of src/voronoi/half_space.rs: plane, cached offset `d = n·p`, error bound of the float filter -/
+structure HalfSpaceM (α : Type) where
+  plane : Plane α
+  d : α
+  errb : α
+
 /-- 4-vector (glam `DVec4`) -/
 structure V4 (α : Type) where
   x : α
@@ -53,6 +59,8 @@ def normalize [Scalar α] (a : V3 α) : V3 α := V3.smul ((N α 1) / length a) a
 end V3
 
 namespace V3
+/-- glam `DVec3::abs` (componentwise) -/
+def abs [Scalar α] (a : V3 α) : V3 α := ⟨Scalar.abs a.x, Scalar.abs a.y, Scalar.abs a.z⟩
 /-- glam `DVec3 / f64` -/
 def divs (a : V3 α) (k : α) : V3 α := ⟨a.x / k, a.y / k, a.z / k⟩
 end V3
@@ -135,6 +143,16 @@ def sphere4 [Scalar α] (a b c d : V3 α) : Sphere α :=
   let oneOver2a := ((N α 1) / (N α 2)) / aa
   let radius := Scalar.sqrt (dx * dx + dy * dy + dz * dz - (N α 4) * aa * cc) * Scalar.abs oneOver2a
   ⟨⟨dx * oneOver2a, dy * oneOver2a, dz * oneOver2a⟩, radius⟩
+
+/-- `HalfSpace::new`: the filter's error bound `EPSILON · (1 + |n|·|p|)` (componentwise absolute values: it scales with the
+SIZE of the terms of `n·p`, not with the value of the sum) and the cached offset -/
+def halfSpaceNew [Scalar α] (n p : V3 α) : HalfSpaceM α :=
+  ⟨⟨n, p⟩, V3.dot n p, Scalar.lit 1 13 * ((N α 1) + V3.dot (V3.abs n) (V3.abs p))⟩
+
+/-- `HalfSpace::clip`: `0` = "ask the exact predicate", otherwise the sign of `n·v - d` -/
+def halfSpaceClip [Scalar α] (h : HalfSpaceM α) (vertex : V3 α) : α :=
+  let clip := V3.dot h.plane.n vertex - h.d
+  if Scalar.lt (Scalar.abs clip) h.errb then (N α 0) else Scalar.signum clip
 
 /-- `Sphere::contains` -/
 def contains [Scalar α] (s : Sphere α) (x : V3 α) : Bool :=
